@@ -281,9 +281,15 @@ type msgpipelineDelivery struct {
 	deliveries  map[module.DeliveryTarget]*delivery
 	msgMeta     *module.MsgMetadata
 	checkRunner *checkRunner
+
+	// Whether the last AddRcpt call passed (a part of) the recipient's
+	// expansion to a target, also if it then failed.
+	rcptPassedOn bool
 }
 
 func (dd *msgpipelineDelivery) AddRcpt(ctx context.Context, to string, opts smtp.RcptOptions) error {
+	dd.rcptPassedOn = false
+
 	if err := dd.checkRunner.checkRcpt(ctx, dd.d.globalChecks, to); err != nil {
 		return err
 	}
@@ -379,8 +385,23 @@ func (dd *msgpipelineDelivery) AddRcpt(ctx context.Context, to string, opts smtp
 				delivery.originalRcpts[to] = append(delivery.originalRcpts[to], originalTo)
 
 				if err := delivery.AddRcpt(ctx, to, opts); err != nil {
+					nested, isNested := delivery.Delivery.(*msgpipelineDelivery)
+					if isNested && nested.rcptPassedOn {
+						dd.rcptPassedOn = true
+					} else {
+						// The target took nothing for this recipient: a status
+						// it reports for the address belongs to the recipients
+						// it accepted the address for.
+						originals := delivery.originalRcpts[to]
+						if len(originals) == 1 {
+							delete(delivery.originalRcpts, to)
+						} else {
+							delivery.originalRcpts[to] = originals[:len(originals)-1]
+						}
+					}
 					return wrapErr(err)
 				}
+				dd.rcptPassedOn = true
 				delivery.recipients = append(delivery.recipients, originalTo)
 			}
 		}
